@@ -335,6 +335,11 @@ def stepLine (st : Mode) (line : String) : Mode × String :=
       | "cmpx" :: rest => (st, cmpx ty rest)
       | _ => (st, "bad-op")
     | .flat ltM ltS m s vm vs =>
+      -- round 3b: `afail <k> <op …>` = the operation with an allocation of the storage vector refused first (no
+      -- effect), then run again: the compared line is the one of the operation
+      let ws := match ws with
+        | "afail" :: _ :: rest => rest
+        | _ => ws
       match flatStep ltM ltS m s ws with
       | some (m, s, r, rm, rs) =>
         let (vm, vs, note) := composedCheck ltM ltS m s ws vm vs rm rs
